@@ -5,7 +5,8 @@
 From Coq Require Import ZArith List Bool QArith Qcanon.
 From Coq Require Import Sorted.
 From Batchie Require Import Lib.Sexp Lib.Num Lib.PyRt Generated.Consts Generated.SrcTrain Model.Encode Model.Screen Model.Train
-  Model.TrainScreen Proofs.C04Train Proofs.C04Screen Proofs.C04Source.
+  Model.TrainScreen Proofs.C04Train Proofs.C04Screen Proofs.C04Source Proofs.C04SourceC20.
+From Batchie Require Model.Synergy.
 Import ListNotations.
 Open Scope Z_scope.
 
@@ -278,6 +279,18 @@ Theorem C04_model_is_source_create_single_treatment_effect_map : forall (arity :
   = if Z.of_nat arity <? 2 then Err 4 else Ok (single_effect_map arity rows).
 Proof. exact src_single_effect_map_is_model. Qed.
 Print Assumptions C04_model_is_source_create_single_treatment_effect_map.
+
+(* the same translated function at exact rationals (O = Qc, one = 1, mean = qmean) is C20's column-level model
+   Synergy.effect_map, on every n x arity id array with two 1-d arrays of n entries (C20's model also covers
+   misaligned arrays = numpy's IndexError, which the translation's mask primitive does not represent; it tags the
+   arity ValueError 1 where the C04 models use 4) *)
+Theorem C04_model_is_source_create_single_treatment_effect_map_c20 :
+  forall (arity : nat) (sids : list Z) (tids : list (list Z)) (obs : list Qc),
+  Forall (fun row => length row = arity) tids -> length sids = length tids -> length obs = length tids ->
+  src_create_single_treatment_effect_map Qc 1%Qc qmean arity sids tids obs
+  = if Nat.ltb arity 2 then Err 4 else Synergy.effect_map arity sids tids obs.
+Proof. exact src_single_effect_map_is_c20_model. Qed.
+Print Assumptions C04_model_is_source_create_single_treatment_effect_map_c20.
 
 (* SparseDrugComboInteraction._add_observations = the interaction model with ALL repair switches true *)
 Theorem C04_model_is_source_interaction_add_observations : forall orc r32 (arity : nat) (st : istate) (rows : list trow),
